@@ -2255,6 +2255,19 @@ to the current parents may contain changes from multiple commits.
         Ok(stats)
     }
 
+    /// Whether the working copy records a non-empty tree that differs from the
+    /// tree of `new_commit`. Used when there is no old working-copy commit to
+    /// compare against.
+    fn workspace_has_unsnapshotted_tree_other_than(
+        &self,
+        new_commit: &Commit,
+    ) -> Result<bool, CommandError> {
+        let wc_tree = self.working_copy().tree()?;
+        let wc_tree_ids = wc_tree.tree_ids();
+        Ok(wc_tree_ids != new_commit.tree_ids()
+            && *wc_tree_ids != self.repo().store().empty_merged_tree_id())
+    }
+
     async fn update_working_copy(
         &mut self,
         ui: &Ui,
@@ -2398,8 +2411,26 @@ to the current parents may contain changes from multiple commits.
         // don't leave the working copy in a stale state.
         if self.may_update_working_copy {
             if let Some(new_commit) = &maybe_new_wc_commit {
-                self.update_working_copy(ui, maybe_old_wc_commit.as_ref(), new_commit)
-                    .await?;
+                if maybe_old_wc_commit.is_none()
+                    && self.workspace_has_unsnapshotted_tree_other_than(new_commit)?
+                {
+                    // The workspace didn't exist in the repo the command started
+                    // from (e.g. it had been forgotten), so its working copy wasn't
+                    // snapshotted. Checking out a different tree now could
+                    // overwrite changes that aren't recorded anywhere.
+                    writeln!(
+                        ui.warning_default(),
+                        "The working copy was left untouched because this workspace did not exist \
+                         in the operation the command started from.",
+                    )?;
+                    writeln!(
+                        ui.hint_default(),
+                        "Run `jj workspace update-stale` to update it.",
+                    )?;
+                } else {
+                    self.update_working_copy(ui, maybe_old_wc_commit.as_ref(), new_commit)
+                        .await?;
+                }
             } else {
                 // It seems the workspace was deleted, so we shouldn't try to
                 // update it.
